@@ -12,6 +12,7 @@ import contextlib
 import io
 import json
 import os
+import resource
 import shutil
 import signal
 import sys
@@ -55,6 +56,8 @@ def describe(exc, out_path):
 def main():
     inp, outp = sys.argv[1], sys.argv[2]
     jobs = json.loads(Path(inp).read_text())
+    # a wrong implementation may compute something enormous: fail with MemoryError instead of being OOM-killed
+    resource.setrlimit(resource.RLIMIT_AS, (4 << 30, 4 << 30))
     import flipjump
     from flipjump.assembler.fj_parser import parse_macro_tree
     from flipjump.assembler.inner_classes.expr import Expr
